@@ -1,7 +1,71 @@
-(** C08 property theorems (statements only; proofs are in Proofs_C08.v). *)
+(** C08 property theorems (statements only; proofs are in Proofs_*.v).
+    Model: Merge.v (follows /repo's mergeable / mergemany / merge_as_union / simplify_* / numbers_to_type). *)
+From Coq Require Import ZArith List.
 From AwkV Require Import Base Layout Valid Types Carry.
-From AwkMerge Require Import Merge Proofs_C08.
+From AwkMerge Require Import Merge Proofs_C08 Proofs_MM Proofs_Simplify.
+Import ListNotations.
+Open Scope Z_scope.
 
+(* (a) The dtype promotion switch of NumpyArray::mergemany is NumPy's promotion on all 121 pairs
+   ([numpy_promote] is additionally compared with the installed numpy.result_type at run time). *)
 Theorem promotion_table_is_numpy : forall a b, promote a b = numpy_promote a b.
 Proof. exact promotion_table_is_numpy_pf. Qed.
 Print Assumptions promotion_table_is_numpy.
+
+(* every source dtype is accepted by the fill switch for the promoted target: the "dtype not in {...}"
+   runtime errors of NumpyArray::mergemany are unreachable *)
+Theorem fill_ok_promote : forall a b, fill_ok a (promote a b) = true /\ fill_ok b (promote a b) = true.
+Proof. exact fill_ok_promote_pf. Qed.
+Print Assumptions fill_ok_promote.
+
+(* (b) mergemany = concatenation of the values, on the fragment "all operands share one skeleton":
+   1-d NumpyArray of any dtype | ListOffsetArray / ListArray (any width, gaps, any order) of skeleton |
+   IndexedArray / IndexedOptionArray / ByteMasked / BitMasked / UnmaskedArray of skeleton.
+   The result exists with the stated fuel (no EOob / EFuel / EValue), and every value is unchanged up to the
+   documented cast of booleans to 0/1 when the merged leaf type is a number ([deep_cast]).
+   _partial: RegularArray, RecordArray, UnionArray, EmptyArray operands, n-d NumpyArray, strings and
+   option-with-non-option mixtures (reverse_merge) are not covered by the proof (they are by the tests). *)
+Theorem mergemany_app_partial : forall s cs,
+  (2 <= length cs)%nat ->
+  Forall (fun c => has_sk s c = true) cs -> Forall (fun c => valid_b c = true) cs ->
+  exists c, mergemany cs = Ok c /\
+            Forall (fun x => to_list x = Ok (vals x)) cs /\
+            to_list c = Ok (concat (map (fun x => map (deep_cast (leaf_dt c)) (vals x)) cs)).
+Proof. exact mergemany_app_partial_pf. Qed.
+Print Assumptions mergemany_app_partial.
+
+(* (e) closure on the same fragment: the merged layout is valid and has the same skeleton *)
+Theorem mergemany_valid_partial : forall s cs c,
+  (2 <= length cs)%nat ->
+  Forall (fun c => has_sk s c = true) cs -> Forall (fun c => valid_b c = true) cs ->
+  mergemany cs = Ok c -> valid_b c = true /\ has_sk s c = true.
+Proof. exact mergemany_valid_partial_pf. Qed.
+Print Assumptions mergemany_valid_partial.
+
+(* (c) merge_as_union keeps both operands' values in order, and is valid when neither operand is a union
+   (all node classes) *)
+Theorem merge_as_union_app : forall a b va vb,
+  to_list a = Ok va -> to_list b = Ok vb -> to_list (merge_as_union a b) = Ok (va ++ vb).
+Proof. exact merge_as_union_app_pf. Qed.
+Print Assumptions merge_as_union_app.
+
+Theorem merge_as_union_valid : forall a b,
+  valid_b a = true -> valid_b b = true -> unionlike a = false -> unionlike b = false ->
+  valid_b (merge_as_union a b) = true.
+Proof. exact merge_as_union_valid_pf. Qed.
+Print Assumptions merge_as_union_valid.
+
+(* (d) simplify_optiontype: any of the 5 x 5 nestings of indexed / option nodes (and the un-nested case),
+   contents of any class: no value changes ... *)
+Theorem simplify_option_value : forall c c' ci vs,
+  opt_content c = Some ci -> valid_b ci = true -> is_strk (fst (params c)) = false ->
+  to_list c = Ok vs -> simplify_option c = Ok c' -> to_list c' = Ok vs.
+Proof. exact simplify_option_value_pf. Qed.
+Print Assumptions simplify_option_value.
+
+(* ... and the result has no option / indexed node directly inside an option / indexed node *)
+Theorem simplify_option_flat : forall c c' ci,
+  opt_content c = Some ci -> valid_b ci = true -> simplify_option c = Ok c' ->
+  exists cc, opt_content c' = Some cc /\ optionlike cc = false.
+Proof. exact simplify_option_flat_pf. Qed.
+Print Assumptions simplify_option_flat.
